@@ -5,7 +5,7 @@
     decimal text, Literals.v, and has its own ParseFloat range test).  Not proved (evaluated on
     every case by the check, [BridgeC04.bridge_agrees]): object literals (C04's [fields_loop] with
     its accumulators against C05's three conjuncts) and [leaves_agree] itself for Int / Float / ID. *)
-From Coq Require Import List NArith ZArith Bool.
+From Coq Require Import List NArith ZArith Bool Lia.
 From ApiFu Require Import Base.Sexp Val.Values Val.MapFacts Val.CoerceModel Val.CoerceProofs Val.CoerceComplete Val.BridgeC04.
 From ApiFu Require Vld.Ast Vld.ValidatorModel.
 Import ListNotations.
@@ -296,4 +296,26 @@ Theorem bridge_bridgeable E dt : bridgeable E = true -> (no_float E = true \/ fl
 Proof.
   intros HB HF l t a. pose proof (bridge_all E dt (leaves_agree_bridgeable E dt HB HF) l t a) as B.
   unfold c04_accepts. unfold ok in B. exact B.
+Qed.
+
+(** ** DateTime and LongInt cross through C04's [SRefined]: the refined images agree with C05's
+    literal coercers on every literal (the leaf step the [bridgeable] restriction stood for) *)
+Lemma longint_leaf dt l : (forall v, l <> LVar v) -> l <> LNull ->
+  ValidatorModel.scalar_accepts (tr_scalar_r dt KLongInt) (tr_lit l) = match scalar_literal dt KLongInt l with Some _ => true | None => false end.
+Proof.
+  intros NV NN. destruct l; try reflexivity; try (exfalso; (apply NN; reflexivity) || (eapply NV; reflexivity)).
+  cbn [tr_lit tr_scalar_r ValidatorModel.scalar_accepts ValidatorModel.refine_ok scalar_literal Ast.v_kind existsb Ast.vkind_eqb orb andb].
+  rewrite int_lit_dec. unfold int64_ok, safe_ok, in_range.
+  destruct (- (2 ^ 53 - 1) <=? z)%Z eqn:A, (z <=? 2 ^ 53 - 1)%Z eqn:B; cbn [andb]; try rewrite andb_false_r; try reflexivity.
+  assert (X : (- 2 ^ 63 <=? z)%Z && (z <=? 2 ^ 63 - 1)%Z = true).
+  { apply Z.leb_le in A, B. apply andb_true_iff. split; apply Z.leb_le; lia. }
+  rewrite X. reflexivity.
+Qed.
+
+Lemma datetime_leaf dt l : (forall v, l <> LVar v) -> l <> LNull ->
+  ValidatorModel.scalar_accepts (tr_scalar_r dt KDateTime) (tr_lit l) = match scalar_literal dt KDateTime l with Some _ => true | None => false end.
+Proof.
+  intros NV NN. destruct l; try reflexivity; try (exfalso; (apply NN; reflexivity) || (eapply NV; reflexivity)).
+  cbn [tr_lit tr_scalar_r ValidatorModel.scalar_accepts ValidatorModel.refine_ok scalar_literal Ast.v_kind existsb Ast.vkind_eqb orb andb].
+  destruct (dt s); reflexivity.
 Qed.
